@@ -480,6 +480,29 @@ Qed.
 
 (* ---- rule: a commit is counted ---------------------------------------------------------------------------------- *)
 
+Lemma greedy_signers root : forall rest sg ms,
+  sg = all_signers ms -> fst (greedy root rest sg ms) = all_signers (snd (greedy root rest sg ms)).
+Proof.
+  induction rest as [|m tl IH]; intros sg ms E; cbn [greedy]; [exact E|].
+  destruct (negb (c_root (co m) =? root)); [auto|].
+  destruct (common_signers (c_signers (co m)) sg); [auto|].
+  apply IH. unfold all_signers. rewrite flat_map_app. cbn. rewrite app_nil_r, E. reflexivity.
+Qed.
+
+Lemma longest_from_signers root : forall l best,
+  fst best = all_signers (snd best) ->
+  fst (longest_from root l best) = all_signers (snd (longest_from root l best)).
+Proof.
+  induction l as [|m tl IH]; intros best E; cbn [longest_from]; [exact E|].
+  destruct (negb (c_root (co m) =? root)); [auto|].
+  apply IH. destruct (Nat.ltb _ _); [|exact E].
+  apply greedy_signers. unfold all_signers. cbn. rewrite app_nil_r. reflexivity.
+Qed.
+
+Lemma longest_unique_signers ct r root :
+  fst (longest_unique ct r root) = all_signers (snd (longest_unique ct r root)).
+Proof. unfold longest_unique. apply longest_from_signers. reflexivity. Qed.
+
 Lemma quorum_ge_3 : 3 <= quorum c0.
 Proof. rewrite Hq. lia. Qed.
 
@@ -488,13 +511,15 @@ Lemma upon_commit_linv i snt s m s' cr p :
   validate_commit (cfg_of i) m (s_height s) (s_round s) p = true ->
   upon_commit (cfg_of i) s m = (s', cr) ->
   linv snt i s' /\
-  (s_decided s = false -> forall v agg, cr = CDecide v agg ->
-     CQ snt (s_round s) (c_root (co p)) /\ v = c_full (co p) /\ c_root (co agg) = c_root (co p) /\
-     c_full (co agg) = c_full (co p) /\ (2 <= length (c_signers (co agg)))%nat).
+  (forall v agg, cr = CDecide v agg ->
+     (2 <= length (c_signers (co agg)))%nat /\
+     (s_decided s = false ->
+        CQ snt (s_round s) (c_root (co p)) /\ v = c_full (co p) /\ c_root (co agg) = c_root (co p) /\
+        c_full (co agg) = c_full (co p))).
 Proof.
   intros L Hadm Hp Hv. unfold upon_commit.
   destruct (cadd_first (s_commit s) m) as [ct added] eqn:Ea. destruct added; cbn [negb].
-  2:{ intros E; injection E as <- <-. split; [exact L|]. intros _ v agg E. discriminate. }
+  2:{ intros E; injection E as <- <-. split; [exact L|]. intros v agg E. discriminate. }
   apply cadd_first_added in Ea.
   pose proof (validate_commit_ok _ _ _ _ _ Hv) as (Tm & Hm & Rm & Rom & Lm & Sm & Vm).
   rewrite Rm in Ea.
@@ -514,30 +539,38 @@ Proof.
   rewrite Rm, Rom.
   pose proof (longest_unique_spec ct (s_round s) (c_root (co p))
                 (genuine snt T_COMMIT (s_round s) (c_root (co p)))) as Hsel.
-  destruct (longest_unique ct (s_round s) (c_root (co p))) as [sg ms].
+  pose proof (longest_unique_signers ct (s_round s) (c_root (co p))) as Hsig.
+  destruct (longest_unique ct (s_round s) (c_root (co p))) as [sg ms]. cbn [fst snd] in Hsig.
   destruct (N.leb_spec (quorum c0) (N.of_nat (length sg))) as [Hle|Hgt].
   2:{ cbn. destruct (N.leb_spec (quorum c0) (N.of_nat (length sg))); [lia|].
-      intros E; injection E as <- <-. split; [exact L1'|]. intros _ v agg E. discriminate. }
+      intros E; injection E as <- <-. split; [exact L1'|]. intros v agg E. discriminate. }
   cbn [quorum cfg_of System.cfg_of]. destruct (N.leb_spec (quorum c0) (N.of_nat (length sg))); [|lia].
   rewrite Hp.
   destruct (aggregate_commits (cfg_of i) ms (c_full (co p))) as [agg|] eqn:Eagg.
-  2:{ intros E; injection E as <- <-. split; [exact L1'|]. intros _ v a E. discriminate. }
+  2:{ intros E; injection E as <- <-. split; [exact L1'|]. intros v a E. discriminate. }
   intros E; injection E as <- <-. split; [exact L1'|].
-  intros Hd v a E. injection E as <- <-.
+  intros v a E. injection E as <- <-.
+  assert (Hagg0 : c_full (co agg) = c_full (co p) /\ length (c_signers (co agg)) = length sg /\
+                  (forall m0, In m0 ms -> c_root (co m0) = c_root (co p)) -> c_root (co agg) = c_root (co p)).
+  { revert Eagg. unfold aggregate_commits. destruct ms as [|m0 tl]; [discriminate|].
+    destruct (forallb (same_signing_root m0) tl); cbn [negb]; [|discriminate].
+    intros E; injection E as <-. cbn [co c_root c_full c_signers]. intros (_ & _ & Hx). apply Hx. left. reflexivity. }
+  assert (Hagg1 : c_full (co agg) = c_full (co p) /\ length (c_signers (co agg)) = length sg).
+  { revert Eagg. unfold aggregate_commits. destruct ms as [|m0 tl]; [discriminate|].
+    destruct (forallb (same_signing_root m0) tl); cbn [negb]; [|discriminate].
+    intros E; injection E as <-. cbn [co c_root c_full c_signers]. split; [reflexivity|].
+    rewrite Hsig. cbn. destruct (v_sort_agg (var c0)); [apply sort_n_length|reflexivity]. }
+  destruct Hagg1 as (A2 & A3).
+  split; [rewrite A3; pose proof quorum_ge_3; lia|].
+  intros Hd.
   assert (Hall : forall x, In x (cget ct (s_round s)) -> genuine snt T_COMMIT (s_round s) (c_root (co p)) x).
   { intros x Hx. rewrite Hentry in Hx. apply in_snoc in Hx. destruct Hx as [Hx| ->]; [eauto|exact Hgen]. }
   destruct Hsel as (S1 & S2 & S3).
   { intros x Hx. destruct (Hall x Hx) as (k & Ek & _). rewrite Ek. constructor; [intros []|constructor]. }
   { exact Hall. }
   cbn [fst snd] in *.
-  assert (Hagg : c_root (co agg) = c_root (co p) /\ c_full (co agg) = c_full (co p) /\
-                 length (c_signers (co agg)) = length sg).
-  { revert Eagg. unfold aggregate_commits. destruct ms as [|m0 tl]; [discriminate|].
-    destruct (forallb (same_signing_root m0) tl); cbn [negb]; [|discriminate].
-    intros E; injection E as <-. cbn [co c_root c_full c_signers].
-    destruct (S3 m0 (or_introl eq_refl)) as [R0 _]. split; [exact R0|]. split; [reflexivity|].
-    rewrite S1. cbn. destruct (v_sort_agg (var c0)); [apply sort_n_length|reflexivity]. }
-  destruct Hagg as (A1 & A2 & A3).
+  assert (A1 : c_root (co agg) = c_root (co p)).
+  { apply Hagg0. split; [exact A2|]. split; [exact A3|]. intros m0 Hm0. apply (S3 m0 Hm0). }
   split.
   - exists sg. split; [exact S2|]. split.
     + intros x Hx. rewrite S1 in Hx. apply all_signers_In in Hx. destruct Hx as (m0 & Hm0 & Hx).
@@ -545,8 +578,7 @@ Proof.
     + split; [exact Hle|]. intros x Hx Hb. rewrite S1 in Hx. apply all_signers_In in Hx.
       destruct Hx as (m0 & Hm0 & Hx). destruct (S3 m0 Hm0) as [_ (k & Ek & _ & Hs)].
       rewrite Ek in Hx. destruct Hx as [<-|[]]. auto.
-  - split; [reflexivity|]. split; [exact A1|]. split; [exact A2|]. rewrite A3.
-    pose proof quorum_ge_3. lia.
+  - split; [reflexivity|]. split; [exact A1|exact A2].
 Qed.
 
 Lemma set_decided_linv snt i s v : linv snt i s -> linv snt i (set_decided s v).
@@ -707,9 +739,9 @@ Lemma process_msg_linv i snt s m s' o r :
   linv snt i s -> admissible c0 byz snt m -> process_msg (cfg_of i) s m = (s', o, r) ->
   linv (snt ++ bcast_of o) i s' /\ new_ok snt i (bcast_of o) /\
   (forall v agg, r = POk true v (Some agg) ->
-     o = [] /\ (s_decided s = false ->
-       exists rr rho, CQ snt rr rho /\ c_root (co agg) = rho /\ c_full (co agg) = v /\ hash v = rho /\
-                      (2 <= length (c_signers (co agg)))%nat)).
+     o = [] /\ (2 <= length (c_signers (co agg)))%nat /\
+     (s_decided s = false ->
+       exists rr rho, CQ snt rr rho /\ c_root (co agg) = rho /\ c_full (co agg) = v /\ hash v = rho)).
 Proof.
   intros L Hadm. unfold process_msg.
   assert (Hsame : linv (snt ++ bcast_of []) i s /\ new_ok snt i (bcast_of [])).
@@ -735,16 +767,163 @@ Proof.
         -- split; [assumption|]. split; [apply new_ok_nil|]. intros ? ? E; discriminate.
         -- split; [assumption|]. split; [apply new_ok_nil|]. intros ? ? E; discriminate.
         -- split; [apply set_decided_linv; exact A|]. split; [apply new_ok_nil|].
-           intros v0 agg0 E. injection E as <- <-. split; [reflexivity|]. intros Hd.
-           destruct (B Hd v agg eq_refl) as (C1 & C2 & C3 & C4 & C5).
+           intros v0 agg0 E. injection E as <- <-. split; [reflexivity|].
+           destruct (B v agg eq_refl) as (C5 & B'). split; [exact C5|]. intros Hd.
+           destruct (B' Hd) as (C1 & C2 & C3 & C4).
            exists (s_round s), (c_root (co p)).
-           split; [exact C1|]. split; [exact C3|]. split; [congruence|]. split; [|exact C5].
+           split; [exact C1|]. split; [exact C3|]. split; [congruence|].
            subst v. destruct L. apply (l_acc0 p Hp).
       * destruct (upon_round_change (cfg_of i) s m) as [[[s1 o1] ok]|] eqn:E1.
         -- intros E; injection E as <- <- <-.
            destruct (upon_round_change_linv i snt s m s1 o1 ok L E1) as [A B].
            split; [assumption|]. split; [assumption|]. intros v agg E. destruct ok; discriminate.
         -- intros E; injection E as <- <- <-. destruct Hsame. split; [assumption|]. split; [assumption|]. intros ? ? E; discriminate.
+Qed.
+
+
+(* ---- decided messages ------------------------------------------------------------------------------------------ *)
+
+(* a state that is decided satisfies the commit-container clauses vacuously *)
+Lemma linv_decided snt i s s' :
+  s_decided s' = true ->
+  s_height s' = s_height s -> s_round s <= s_round s' -> s_lpr s' = s_lpr s -> s_lpv s' = s_lpv s ->
+  s_acc s' = s_acc s -> s_prep s' = s_prep s ->
+  (s_round s < s_round s' \/ s_round s' = s_round s) ->
+  linv snt i s -> linv snt i s'.
+Proof.
+  intros Hd Hh Hr Hl Hv Ha Hp Hcase [Lh L1 Ll Lp Lr Lc Lpc Lpf Lpn La Lcc Lcf Lcn].
+  constructor; rewrite ?Hh, ?Hl, ?Hv, ?Ha, ?Hp, ?Hd; try (intros; discriminate).
+  - exact Lh.
+  - lia.
+  - lia.
+  - intros y Hy By. destruct (Lp y Hy By) as (A & B & C). split; [exact A|]. split; [lia|].
+    intros E. apply C. lia.
+  - intros y Hy By. specialize (Lr y Hy By). lia.
+  - intros y Hy By. destruct (Lc y Hy By) as (A & B & C & D & E). split; [exact A|]. split; [lia|].
+    split; [intros E'; apply C; lia|]. split; [exact D|exact E].
+  - intros p E m Hm. destruct Hcase as [Hlt|Heq].
+    + rewrite Lpf in Hm by exact Hlt. destruct Hm.
+    + rewrite Heq in *. eauto.
+  - intros r Hlt. apply Lpf. lia.
+  - intros E. destruct Hcase as [Hlt|Heq]; [apply Lpf; exact Hlt|rewrite Heq; auto].
+  - exact La.
+Qed.
+
+Lemma certificate_CQ i snt m :
+  admissible c0 byz snt m -> certificate (cfg_of i) m ->
+  CQ snt (c_round (co m)) (c_root (co m)) /\ hash (c_full (co m)) = c_root (co m).
+Proof.
+  intros Hadm (T & Nd & Nz & Len & Sg & Hh). split; [|exact Hh].
+  pose proof (Hadm m (or_introl eq_refl) (sig_check_ok _ _ Sg)) as Hg.
+  exists (c_signers (co m)). split; [exact Nd|]. split; [intros s Hs; apply (Hg s Hs)|]. split; [exact Len|].
+  intros s Hs Hb. destruct (Hg s Hs) as [_ H]. destruct (H Hb) as (y & Hy & Ey & (C1 & C2 & C3 & C4 & C5)).
+  exists y. split; [exact Hy|]. split; [split; [exact Ey|congruence]|]. split; congruence.
+Qed.
+
+Lemma agg_not_single a j ty : (2 <= length (c_signers (co a)))%nat -> ~ by_ j ty a.
+Proof. intros H [E _]. rewrite E in H. cbn in H. lia. Qed.
+
+Lemma ctl_process_linv i snt s m s' o r :
+  linv snt i s -> admissible c0 byz snt m -> rewinds (cfg_of i) s m = false ->
+  ctl_process (cfg_of i) s m = (s', o, r) ->
+  linv (snt ++ bcast_of o) i s' /\ new_ok snt i (bcast_of o) /\
+  (forall d, r = CRDecided d ->
+     exists rr rho, CQ snt rr rho /\ c_root (co d) = rho /\ hash (c_full (co d)) = rho).
+Proof.
+  intros L Hadm Hnr. unfold ctl_process.
+  assert (Hsame : linv (snt ++ bcast_of []) i s /\ new_ok snt i (bcast_of [])).
+  { cbn. rewrite app_nil_r. split; [exact L|apply new_ok_nil]. }
+  destruct (N.eqb_spec (c_ident (co m)) 0) as [Hid|Hid]; cbn [negb].
+  2:{ intros E; injection E as <- <- <-. destruct Hsame. split; [assumption|]. split; [assumption|]. intros ? E; discriminate. }
+  destruct (is_decided_msg (cfg_of i) m) eqn:Hdm.
+  - destruct (validate_decided (cfg_of i) m) eqn:Hvd; cbn [negb].
+    2:{ intros E; injection E as <- <- <-. destruct Hsame. split; [assumption|]. split; [assumption|]. intros ? E; discriminate. }
+    destruct (N.eqb_spec (c_height (co m)) (s_height s)) as [Hhe|Hhe]; cbn [negb].
+    2:{ intros E; injection E as <- <- <-. destruct Hsame. split; [assumption|]. split; [assumption|]. intros ? E; discriminate. }
+    unfold upon_decided. destruct (s_decided s) eqn:Hd.
+    + (* already decided: only the commit container may change *)
+      destruct (longest_unique (s_commit s) _ _) as [sg ms].
+      destruct (Nat.ltb (length sg) (length (c_signers (co m)))); intros E; injection E as <- <- <-; cbn; rewrite app_nil_r.
+      * split; [|split; [apply new_ok_nil|intros ? E; discriminate]].
+        eapply linv_decided; [..|exact L]; try reflexivity; auto; try lia.
+      * split; [exact L|]. split; [apply new_ok_nil|intros ? E; discriminate].
+    + (* first decision: the round moves to the certificate's round, never backwards *)
+      intros E; injection E as <- <- <-. cbn. rewrite app_nil_r.
+      assert (Hfw : s_round s <= c_round (co m)).
+      { unfold rewinds in Hnr. rewrite Hdm, Hvd, Hd in Hnr. rewrite Hid, Hhe in Hnr. cbn in Hnr.
+        rewrite N.eqb_refl in Hnr. cbn in Hnr. apply N.ltb_ge in Hnr. exact Hnr. }
+      split; [|split; [apply new_ok_nil|]].
+      * eapply linv_decided; [..|exact L]; try reflexivity; cbn; auto; try lia.
+      * intros d E. injection E as <-.
+        destruct (certificate_CQ i snt m Hadm (validate_decided_certificate _ _ Hvd)) as [C1 C2].
+        eauto.
+  - destruct (s_height s <? c_height (co m)).
+    { intros E; injection E as <- <- <-. destruct Hsame. split; [assumption|]. split; [assumption|]. intros ? E; discriminate. }
+    destruct (negb (c_height (co m) =? s_height s)).
+    { intros E; injection E as <- <- <-. destruct Hsame. split; [assumption|]. split; [assumption|]. intros ? E; discriminate. }
+    destruct (process_msg (cfg_of i) s m) as [[s1 o1] r1] eqn:E1.
+    destruct (process_msg_linv i snt s m s1 o1 r1 L Hadm E1) as (A & B & C).
+    destruct r1 as [|dd v agg|]; try (intros E; injection E as <- <- <-; split; [assumption|]; split; [assumption|]; intros ? E; discriminate).
+    destruct dd; cbn [negb].
+    2:{ intros E; injection E as <- <- <-. split; [assumption|]. split; [assumption|]. intros ? E; discriminate. }
+    destruct agg as [a|].
+    2:{ intros E; injection E as <- <- <-. split; [assumption|]. split; [assumption|]. intros ? E; discriminate. }
+    destruct (C v a eq_refl) as (Ho & C5 & Hc). subst o1. cbn in A.
+    intros E; injection E as <- <- <-. cbn. rewrite app_nil_r in A.
+    split; [apply linv_other; [exact A|]; intros [P|[P|P]]; apply (agg_not_single a _ _ C5 P)|].
+    split; [apply new_ok_other; intros j ty P; exfalso; apply (agg_not_single a _ _ C5 P)|].
+    destruct (s_decided s) eqn:Hd; [intros ? E; discriminate|].
+    destruct (Hc eq_refl) as (rr & rho & C1 & C2 & C3 & C4).
+    intros d E. injection E as <-. exists rr, rho. split; [exact C1|]. split; [exact C2|]. congruence.
+Qed.
+
+
+(* ---- compaction, the runner, the controller's timeout ------------------------------------------------------------ *)
+
+Lemma cget_nil r : cget [] r = [].
+Proof. reflexivity. Qed.
+
+Lemma compact_linv snt i s : linv snt i s -> linv snt i (compact s).
+Proof.
+  intros L. destruct (s_decided s) eqn:Hd.
+  - (* decided: the prepare container is cleared; the commit clauses are vacuous *)
+    destruct L as [Lh L1 Ll Lp Lr Lc Lpc Lpf Lpn La Lcc Lcf Lcn].
+    constructor; unfold compact; cbn; rewrite ?Hd; cbn; auto; try (intros; discriminate).
+    intros p E m Hm. destruct Hm.
+  - eapply linv_view; [|exact L]. unfold same_view, compact; cbn. rewrite Hd.
+    repeat split; auto.
+    + intros r Hr. change (ccompact (s_prep s) (s_lpr s) false) with (cfilter (s_lpr s) (s_prep s)).
+      apply cget_cfilter. destruct L. lia.
+    + intros r Hr. change (ccompact (s_commit s) (s_round s) false) with (cfilter (s_round s) (s_commit s)).
+      apply cget_cfilter. exact Hr.
+Qed.
+
+Lemma runner_process_linv i snt s m s' o r :
+  linv snt i s -> admissible c0 byz snt m -> rewinds (cfg_of i) s m = false ->
+  runner_process (cfg_of i) s m = (s', o, r) ->
+  linv (snt ++ bcast_of o) i s' /\ new_ok snt i (bcast_of o) /\
+  (forall d, r = CRDecided d ->
+     exists rr rho, CQ snt rr rho /\ c_root (co d) = rho /\ hash (c_full (co d)) = rho).
+Proof.
+  intros L Hadm Hnr. unfold runner_process.
+  destruct (ctl_process (cfg_of i) s m) as [[s1 o1] r1] eqn:E1.
+  destruct (ctl_process_linv i snt s m s1 o1 r1 L Hadm Hnr E1) as (A & B & C).
+  destruct (needs_compact (cfg_of i) s1 m); intros E; injection E as <- <- <-.
+  - split; [apply compact_linv; exact A|]. split; assumption.
+  - split; [exact A|]. split; assumption.
+Qed.
+
+Lemma on_timeout_linv i snt s s' o ok :
+  linv snt i s -> on_timeout (cfg_of i) s (s_height s) (s_round s) = (s', o, ok) ->
+  linv (snt ++ bcast_of o) i s' /\ new_ok snt i (bcast_of o).
+Proof.
+  intros L. unfold on_timeout.
+  assert (Hsame : linv (snt ++ bcast_of []) i s /\ new_ok snt i (bcast_of [])).
+  { cbn. rewrite app_nil_r. split; [exact L|apply new_ok_nil]. }
+  destruct (negb (s_height s =? s_height s)); [intros E; injection E as <- <- _; exact Hsame|].
+  destruct (s_round s <? s_round s); [intros E; injection E as <- <- _; exact Hsame|].
+  destruct (s_decided s); [intros E; injection E as <- <- _; exact Hsame|].
+  apply upon_timeout_linv. exact L.
 Qed.
 
 End Inv.
